@@ -170,8 +170,15 @@ def sym_norm(elems):
         tot = rv(const)
     elif const != 0:
         tot = tot + rv(const)
+    # the norm is a function of its input: the same sum of squares (term-wise) on the same path gets the same symbol
+    if not hasattr(E, 'norm_memo'):
+        E.norm_memo = {}
+    key = tot.sexpr()
+    if key in E.norm_memo:
+        return SV(E.norm_memo[key])
     nu = E.fresh_real('nu')
     E.assume(z3.And(nu >= 0, nu * nu == tot))
+    E.norm_memo[key] = nu
     return SV(nu)
 
 
